@@ -262,6 +262,25 @@ def translate(repo: Path) -> dict:
     if not m:
         raise T.TranslateError("DiskRefsContainer.get_packed_refs: header probe not found")
     probe1, probe2 = _blit(m.group(1)), _blit(m.group(2))
+    # _check_packed_conflict: leading parts looked up one by one, descendants by a FULL SCAN of the packed names
+    # (the model's `packedConflict` is `any` over all of them; a positional lookup is a different function)
+    m = _match_src("DiskRefsContainer._check_packed_conflict",
+                   _body(T.find_def(tree, "DiskRefsContainer._check_packed_conflict")), _esc(
+        "packed_refs = self.get_packed_refs()\n"
+        "probe_ref = Ref(os.path.dirname(name))\n"
+        "while probe_ref:\n"
+        "    if packed_refs.get(probe_ref, None) is not None:\n"
+        "        raise NotADirectoryError(filename)\n"
+        "    probe_ref = Ref(os.path.dirname(probe_ref))\n"
+        "prefix = name + «B»\n"
+        "for ref in packed_refs:\n"
+        "    if ref.startswith(prefix):\n"
+        "        raise IsADirectoryError(filename)"))
+    if _blit(m.group(1)) != b"/":
+        raise T.TranslateError("_check_packed_conflict: the descendant prefix is not name + b'/'")
+    for writer, arg in (("set_symbolic_ref", "name"), ("set_if_equals", "realname"), ("add_if_new", "realname")):
+        if f"self._check_packed_conflict({arg}, filename)" not in ast.unparse(T.find_def(tree, "DiskRefsContainer." + writer)):
+            raise T.TranslateError(f"DiskRefsContainer.{writer}: no call of _check_packed_conflict({arg}, filename)")
     # pack_refs: which refs are packed when all=False
     pr = ast.unparse(T.find_def(tree, "DiskRefsContainer.pack_refs"))
     if "if all or ref.startswith(LOCAL_TAG_PREFIX):" not in pr or "if ref == HEADREF:" not in pr:
@@ -340,11 +359,21 @@ end Dulwich.Gen.Refs
 HEAD = b"HEAD"
 ZERO = b"0" * 40
 SYM = b"ref: "
+# refs/heads/a-x, a.x sort BETWEEN refs/heads/a and refs/heads/a/b ('-' '.' < '/'), a0 right after
 NAMES = [HEAD, b"refs/heads/a", b"refs/heads/a/b", b"refs/heads/m", b"refs/heads/s", b"refs/heads/t",
-         b"refs/tags/v", b"refs/tags/w", b"refs/remotes/o/m", b"refs/heads/d/e/f"]
-WEIGHTS = [3, 5, 5, 3, 3, 2, 3, 2, 2, 2]
+         b"refs/tags/v", b"refs/tags/w", b"refs/remotes/o/m", b"refs/heads/d/e/f",
+         b"refs/heads/a-x", b"refs/heads/a.x", b"refs/heads/a0"]
+WEIGHTS = [3, 5, 5, 3, 3, 2, 3, 2, 2, 2, 2, 2, 1]
 CHAIN = [b"refs/heads/c%d" % i for i in range(1, 7)]       # links of symbolic-ref chains and loops
 ALL_NAMES = NAMES + CHAIN
+# the file-versus-directory family of the systematic `sib.*` stream: a base name, names below it at depth 1..3,
+# siblings that sort BETWEEN base and base/… in byte order (0x21..0x2e < '/') and siblings that sort after
+TOPIC = b"refs/heads/topic"
+TOPIC_BELOW = [TOPIC + b"/x", TOPIC + b"/x/y", TOPIC + b"/x/y/z"]
+TOPIC_BETWEEN = [TOPIC + b"-old", TOPIC + b".bak", TOPIC + b"+1", TOPIC + b",2"]
+TOPIC_AFTER = [TOPIC + b"0", TOPIC + b"z"]
+SIB_NAMES = [TOPIC] + TOPIC_BELOW + TOPIC_BETWEEN + TOPIC_AFTER
+UNIVERSE = set(ALL_NAMES) | set(SIB_NAMES)
 GIT_SYMREF_MAXDEPTH = 5                 # refs.c: git reads at most 5 refs, i.e. follows at most 4 symbolic refs
 BAD_NAME = b"refs/heads/x..y"          # rejected by _check_refname (model correspondence only)
 MISSING_TARGET = b"refs/heads/zz"      # a symref target that never exists
@@ -1157,7 +1186,7 @@ def oracle_step(ctx, stream, mk_case, backend, op, ret, pre, post, repos):
             if r in pre_raw and collides(pre_raw, r):
                 # both `a` and `a/b` exist: only reachable through an already reported refusal failure
                 return "skip"
-        allowed = spec_step(pre_raw, op, set(ALL_NAMES))
+        allowed = spec_step(pre_raw, op, UNIVERSE)
         if allowed is None:
             return "unspecified"
         for pred, m2 in allowed:
@@ -1306,6 +1335,7 @@ def run_sequence(ctx, repos, backend, init, ops=None, n_ops=30, rng=None, stream
     res.line = " ".join(["c16.seq", tgt.model_kind()] + tgt.model_state_tokens(res.st0) + ["--"] +
                         [t for op in res.ops for t in op_tokens(op)])
     res.backend, res.init = backend, init
+    res.dir, res.final, res.container = tgt.dir, cur, tgt.c
     return res
 
 
@@ -1456,6 +1486,109 @@ def stream_chains(ctx, repos):
     compare_with_model(ctx, results)
     shrink_failures(ctx, repos, n_fail0, limit=3)
     ctx.extra_cov["chain_scenarios"] = [f"{'loop' if lp else 'chain'}:{lp or k}:{end}" for k, end, lp in scen]
+
+
+def sib_scenarios(thorough: bool, rng=None, extra: int = 0) -> list:
+    """(direction, depth, n_between, after, packer): direction 'below' = a name below TOPIC is packed and TOPIC is
+    written; 'above' = TOPIC is packed and a name below it is written; 'none' = only siblings are packed (control:
+    the write must go through); packer 'git' = `git pack-refs --all`, 'dulwich' = pack_refs(all=True)."""
+    out = []
+    for direction in ("below", "above", "none"):
+        for depth in (1, 2, 3):
+            if direction == "none" and depth > 1:
+                continue
+            for nb in (0, 1, 2, 3, 4):
+                for after in (False, True):
+                    for packer in ("git", "dulwich"):
+                        if not thorough and (after != (nb % 2 == 1) or (packer == "dulwich") != ((nb + depth) % 2 == 0)):
+                            continue
+                        out.append((direction, depth, nb, after, packer))
+    for _ in range(extra):
+        out.append((rng.choice(["below", "above", "none"]), rng.randint(1, 3), rng.randint(0, 4), rng.random() < 0.5,
+                    rng.choice(["git", "dulwich"])))
+    return out
+
+
+def sib_case(repos: Repos, scen, rng=None):
+    """-> (init, ops, written name)"""
+    direction, depth, nb, after, packer = scen
+    between = list(TOPIC_BETWEEN)
+    if rng is not None:
+        rng.shuffle(between)
+    packed = {n: repos.A for n in between[:nb]}
+    if after:
+        packed.update({n: repos.B for n in TOPIC_AFTER})
+    below = TOPIC_BELOW[depth - 1]
+    if direction == "below":
+        packed[below] = repos.C
+        target = TOPIC
+    elif direction == "above":
+        packed[TOPIC] = repos.C
+        target = below
+    else:
+        target = TOPIC
+    packed[b"refs/heads/m"] = repos.A
+    kind = "packed" if packer == "git" else "loose"
+    init = [[kind, n, v] for n, v in packed.items()]
+    s = b"refs/heads/s"
+    ops = ([["K", True]] if packer == "dulwich" else []) + [
+        ["I", target, repos.B], ["S", target, None, repos.B], ["S", target, ZERO, repos.B], ["A", target, repos.B],
+        ["Y", target, b"refs/heads/m"], ["Y", HEAD, target], ["I", HEAD, repos.B], ["S", HEAD, ZERO, repos.C],
+        ["A", HEAD, repos.C], ["Y", s, target], ["S", s, None, repos.A], ["A", s, repos.A], ["T"], ["U"]]
+    return init, ops, target
+
+
+def git_update_ref_verdict(ctx, stream, mk_case, repos: Repos, res, target: bytes, first_write: int):
+    """C git's verdict on the same repository: `git update-ref <target> <sha>` must be refused exactly when
+    dulwich refused the same write (compared directly when nothing has changed since), and exactly when the map
+    spec says the name collides."""
+    st, raw = res.final[0], res.final[3]
+    files = st[0]
+    if not files.get(HEAD):
+        return "no-HEAD"
+    rc, out, err = repos.git_rc(res.dir, "update-ref", target.decode(), repos.B.decode())
+    git_refused = rc != 0
+    spec_refused = target not in raw and collides(raw, target)
+    if git_refused != spec_refused:
+        ctx.oracle_fail(stream, mk_case(), f"git update-ref {target!r}: {'refused' if git_refused else 'accepted'} "
+                                           f"({err[:80]!r}) but the map spec says {'collision' if spec_refused else 'no collision'}", None)
+    before = res.st0 if first_write == 0 else res.states[first_write - 1]
+    unchanged = raw_of_disk(before) == raw_of_disk(st)          # every write since was refused
+    if unchanged and first_write < len(res.rets):
+        dul_refused = res.rets[first_write].startswith("err")
+        if dul_refused != git_refused:
+            ctx.oracle_fail(stream, mk_case(), f"{op_readable(res.ops[first_write])} -> {res.rets[first_write]} but "
+                                               f"`git update-ref {target.decode()}` on the same repository is "
+                                               f"{'refused' if git_refused else 'accepted'}", None)
+    if not git_refused:
+        # git wrote the ref: what git lists and what the container lists must still agree
+        st2 = read_disk(res.dir)
+        c = res.container
+        inner = getattr(c, "_refs", c)
+        git_view_check(ctx, stream + ".after-git", mk_case, repos, res.dir, st2, inner)
+    return "refused" if git_refused else "accepted"
+
+
+def stream_siblings(ctx, repos, extra: int = 0):
+    """Systematic: file-versus-directory collisions where the colliding descendant (or ancestor) exists ONLY in
+    packed-refs, next to 0..4 packed siblings that sort between `name` and `name/…` and siblings that sort after;
+    depth 1..3; packed by git and by dulwich; every writer, directly and through HEAD / a symref."""
+    rng = ctx.rng
+    results = []
+    n_fail0 = len(ctx.oracle_failures)
+    for scen in sib_scenarios(ctx.thorough, rng, extra):
+        for b in ("disk", "nsdisk"):
+            init, ops, target = sib_case(repos, scen, rng if extra else None)
+            res = run_sequence(ctx, repos, b, init, ops, stream="sib." + b)
+            results.append(res)
+            first_write = 1 if scen[4] == "dulwich" else 0
+            if b == "disk":
+                mk = (lambda r=res: seq_case(r.backend, r.init, r.ops, first_write))
+                v = git_update_ref_verdict(ctx, "sib.disk.git-update-ref", mk, repos, res, target, first_write)
+                ctx.count("sib.disk.git-update-ref", (scen,), True, f"{scen[0]}:{v}")
+    compare_with_model(ctx, results)
+    shrink_failures(ctx, repos, n_fail0, limit=3)
+    ctx.extra_cov["sibling_scenarios"] = len(results)
 
 
 def stream_sequences(ctx, repos, n_seq, n_ops=30, git_every=0):
@@ -1815,6 +1948,7 @@ def run(ctx: core.Ctx):
     stream_fmt(ctx, repos)
     stream_packed(ctx)
     stream_chains(ctx, repos)
+    stream_siblings(ctx, repos)
     stream_sequences(ctx, repos, ctx.budget(160, mult=8), git_every=5 if ctx.thorough else 0)
     ctx.extra_cov["backends"] = list(BACKENDS)
     ctx.extra_cov["universe"] = [n.decode() for n in NAMES]
@@ -1856,6 +1990,11 @@ def search(ctx: core.Ctx):
                             f"check_ref_format({n!r}) = {r} but `git check-ref-format` says {'valid' if g else 'invalid'}", fmt_class(n))
             if len(ctx.oracle_failures) >= 3:
                 return
+    # 1b. file-versus-directory collisions with packed-only refs among byte-order neighbours (a changed
+    # _check_packed_conflict breaks the translator obligation: look for the concrete packed set and name)
+    stream_siblings(ctx, repos, extra=ctx.budget(80))
+    if ctx.oracle_failures:
+        return
     # 2. sequences: replay the disagreeing ones on every backend with the oracle after every step, then many more
     for dgr in ctx.disagreements:
         c = dgr["case"]
